@@ -43,6 +43,9 @@ structure Cfg where
 /-- `parser.maintainCaptureOrder` (set in `Parse`) -/
 def Cfg.ord (c : Cfg) : Bool := c.mco || c.ecma
 
+/-- `strconv.Itoa` -/
+def itoa (n : Nat) : String := toString n
+
 /-! ### association lists standing for Go maps -/
 
 /-- `m[k] = v` -/
@@ -103,7 +106,7 @@ def scanEvent (cfg : Cfg) (s : PState) : Event → Option PState
     else some (noteSlot s.autocap { s with autocap := s.autocap + 1 })
   | .numbered k =>
     if cfg.ecma then some s          -- a digit does not start an ECMAScript group name: nothing noted
-    else if cfg.ord then noteName cfg (toString k) s
+    else if cfg.ord then noteName cfg (itoa k) s
     else some (noteSlot k s)
   | .numbered0 _ => some s           -- `ch != '0'` guard: nothing noted
   | .named name => noteName cfg name s
@@ -134,17 +137,20 @@ def capnumlistOf (s : PState) : Option (List Nat) :=
   if s.caps.length < s.captop then some (isort s.caps) else none
 
 /-- the merge loop of `assignNameSlots`: walks the used numbers `js` and the old name list in
-    parallel; `next` is `capnames[old[k]]` as read when `k` advanced (`none` = -1) -/
-def mergeNames : List Nat → List String → Option Nat → List (String × Nat) → List String →
+    parallel; `next` is `capnames[old[k]]` as read when `k` advanced (`none` = -1).
+    Returns the new `capnamelist` and the updated `capnames`. -/
+def mergeNames : List Nat → List String → Option Nat → List (String × Nat) →
     List String × List (String × Nat)
-  | [], _, _, cn, acc => (acc.reverse, cn)
-  | j :: js, old, next, cn, acc =>
-    if next = some j then
-      match old with
-      | nm :: old' => mergeNames js old' (old'.head?.bind (fun n => cn.lookup n)) cn (nm :: acc)
-      | [] => mergeNames js [] none cn acc      -- not reachable: `next` is `none` when `old` is used up
-    else
-      mergeNames js old next (setKey (toString j) j cn) (toString j :: acc)
+  | [], _, _, cn => ([], cn)
+  | j :: js, old, next, cn =>
+    match (if next = some j then old else []) with
+    | nm :: old' =>
+      let r := mergeNames js old' (old'.head?.bind (fun n => cn.lookup n)) cn
+      (nm :: r.1, r.2)
+    | [] =>
+      -- (`next = some j` with the old list used up cannot happen: `next` is -1 then)
+      let r := mergeNames js old next (setKey (itoa j) j cn)
+      (itoa j :: r.1, r.2)
 
 /-- tables the parser hands over (`RegexTree`) -/
 structure Tables where
@@ -155,18 +161,21 @@ structure Tables where
   caplist : Option (List String)
   deriving Repr
 
-/-- `assignNameSlots` without MaintainCaptureOrder -/
-def assignNameSlots (s0 : PState) : Tables :=
-  let s := if s0.capnames.isSome then assignLoop s0.capnamelist s0 else s0
+/-- `assignNameSlots` after its first loop: `capnumlist` and the merge of numbers and names -/
+def finishNames (s : PState) : Tables :=
   let cnl := capnumlistOf s
   if s.capnames.isSome || cnl.isSome then
     let js := cnl.getD (List.range s.caps.length)
     let cn := s.capnames.getD []
     let old := if s.capnames.isSome then s.capnamelist else []
-    let (cl, cn') := mergeNames js old (old.head?.bind (fun n => cn.lookup n)) cn []
-    { caps := s.caps, capnumlist := cnl, captop := s.captop, capnames := some cn', caplist := some cl }
+    let r := mergeNames js old (old.head?.bind (fun n => cn.lookup n)) cn
+    { caps := s.caps, capnumlist := cnl, captop := s.captop, capnames := some r.2, caplist := some r.1 }
   else
     { caps := s.caps, capnumlist := cnl, captop := s.captop, capnames := none, caplist := none }
+
+/-- `assignNameSlots` without MaintainCaptureOrder -/
+def assignNameSlots (s0 : PState) : Tables :=
+  finishNames (if s0.capnames.isSome then assignLoop s0.capnamelist s0 else s0)
 
 /-- `capnamelist[index] = name` for every name, `index` = position of its slot -/
 def placeNames (cnl : Option (List Nat)) (cn : List (String × Nat)) : List String → List String → List String
@@ -179,14 +188,14 @@ def placeNames (cnl : Option (List Nat)) (cn : List (String × Nat)) : List Stri
     placeNames cnl cn rest (cl.set index name)
 
 /-- second loop of `assignOrderedNameSlots` (not run under ECMAScript): unnamed slots get their
-    decimal number as name -/
-def fillNames : List Nat → List String → List (String × Nat) → List String → List String × List (String × Nat)
-  | [], _, cn, acc => (acc.reverse, cn)
-  | _ :: _, [], cn, acc => (acc.reverse, cn)
-  | slot :: slots, nm :: cl, cn, acc =>
-    let nm' := if nm = "" then toString slot else nm
+    decimal number as name; a name enters `capnames` only if it is not there yet -/
+def fillNames : List Nat → List String → List (String × Nat) → List String × List (String × Nat)
+  | slot :: slots, nm :: cl, cn =>
+    let nm' := if nm = "" then itoa slot else nm
     let cn' := if (cn.lookup nm').isSome then cn else cn ++ [(nm', slot)]
-    fillNames slots cl cn' (nm' :: acc)
+    let r := fillNames slots cl cn'
+    (nm' :: r.1, r.2)
+  | _, _, cn => ([], cn)
 
 /-- `assignOrderedNameSlots` -/
 def assignOrderedNameSlots (cfg : Cfg) (s : PState) : Tables :=
@@ -200,8 +209,8 @@ def assignOrderedNameSlots (cfg : Cfg) (s : PState) : Tables :=
     if cfg.ecma then
       { caps := s.caps, capnumlist := cnl, captop := s.captop, capnames := some cn, caplist := some cl }
     else
-      let (cl', cn') := fillNames slots cl cn []
-      { caps := s.caps, capnumlist := cnl, captop := s.captop, capnames := some cn', caplist := some cl' }
+      let r := fillNames slots cl cn
+      { caps := s.caps, capnumlist := cnl, captop := s.captop, capnames := some r.2, caplist := some r.1 }
 
 /-- `countCaptures`: `none` = the pre-scan reports an error -/
 def countCaptures (cfg : Cfg) (evs : List Event) : Option Tables :=
@@ -273,7 +282,7 @@ def slotOf (m : Maps) (n : Nat) : Option Nat :=
 /-- `GetGroupNames` -/
 def getGroupNames (m : Maps) : List String :=
   match m.caplist with
-  | none => (List.range m.capsize).map toString
+  | none => (List.range m.capsize).map itoa
   | some cl => cl
 
 /-- `GetGroupNumbers` (`result[v] = k` over the map `l[i] ↦ i`) -/
@@ -285,7 +294,7 @@ def getGroupNumbers (m : Maps) : List Nat :=
 /-- `GroupNameFromNumber` -/
 def groupNameFromNumber (m : Maps) (i : Nat) : String :=
   match m.caplist with
-  | none => if i < m.capsize then toString i else ""
+  | none => if i < m.capsize then itoa i else ""
   | some cl =>
     match m.codeCaps with
     | some l =>
